@@ -60,6 +60,9 @@ def cases(tier, seed):
                     if k == 3 and nd == 2 and tier == "quick":
                         continue
                     out.append({"id": f"B-r{list(shape)}-d{nd}-c{''.join(c[1] for c in cont) or '0'}", "rshape": list(shape), "masks": ms, "nd": nd, "cont": list(cont), "seed": seed, "block": "B"})
+    # history cases: sequences of representations built in ONE process for the same variable name
+    # (a representation must depend on its own space only, not on what was built before)
+    out.append({"id": "history-same-name-sequences", "block": "H", "rshape": [], "masks": [0], "nd": 0, "cont": [], "seed": seed})
     return out
 
 
@@ -92,7 +95,49 @@ def _ref_coord(nodes, v):
     return i + (v - nodes[i]) / (nodes[i + 1] - nodes[i])
 
 
+def _run_history(case):
+    """All sequences of length <= 3 over an alphabet of 1-d spaces that share the variable name."""
+    import jax
+    import jax.numpy as jnp
+    from lcm.function_representation import get_function_representation
+    from lcm.grids import LinspaceGrid, LogspaceGrid
+    from lcm.interfaces import SpaceInfo
+
+    alphabet = [("lin", 0.5, 6.0, 3), ("log", 0.5, 6.0, 3), ("lin", 0.5, 6.0, 4), ("log", 1.5, 6.0, 3), ("lin", 1.5, 6.0, 3)]
+    viols, cnt, dig = [], 0, []
+
+    def evaluate(letter, prefix):
+        kind, a, b, n = letter
+        grid = (LinspaceGrid if kind == "lin" else LogspaceGrid)(start=a, stop=b, n_points=n)
+        nodes = np.linspace(a, b, n) if kind == "lin" else np.exp(np.linspace(np.log(a), np.log(b), n))
+        info = SpaceInfo(axis_names=["x0"], lookup_info={}, interpolation_info={"x0": grid}, indexer_infos=[])
+        f = get_function_representation(info, "vf_arr", input_prefix=prefix)
+        arr = np.sin(1.7 * np.arange(n)) * 3 + np.arange(n) ** 2
+        pts = _lattice(kind, nodes, False)
+        got = np.asarray(jax.vmap(lambda v: f(**{prefix + "x0": v}, vf_arr=jnp.asarray(arr)))(jnp.asarray(pts)))
+        from mc.checks.c15 import ref_map
+
+        exp = ref_map(arr, _ref_coord(nodes, pts)[None])
+        return got, exp, pts
+
+    for L in (1, 2, 3):
+        for seq in itertools.product(range(len(alphabet)), repeat=L):
+            for prefix in ("", "next_"):
+                for pos, li in enumerate(seq):
+                    got, exp, pts = evaluate(alphabet[li], prefix)
+                    cnt += len(pts)
+                    if pos == len(seq) - 1:
+                        dig.append(np.round(got, 8))
+                    bad = ~(np.abs(got - exp) <= 1e-9 * (1 + np.abs(exp)))
+                    if bad.any() and not viols:
+                        i = int(np.argwhere(bad)[0][0])
+                        viols.append(violation("function-representation-history", "vmap", "VALUE", f"sequence of spaces {[alphabet[j] for j in seq]} (same variable name x0, prefix '{prefix}'), element #{pos}: at x0={pts[i]!r} got {got[i]!r}, reference {exp[i]!r}"))
+    return outcome(status="violation" if viols else "ok", violations=viols, states=cnt, transitions=cnt, traces=cnt, digest=digest(dig))
+
+
 def run_case(case):
+    if case["block"] == "H":
+        return _run_history(case)
     import jax
     import jax.numpy as jnp
     from dataclasses import make_dataclass
